@@ -2,6 +2,11 @@
 \* renamed key before/after the mode, evt! property, evt! template hole) x every transformation path of length <= 3
 \* over {ByRef, Erase, EraseEvent, ToOwned, ToShared, IntoCtxt, PushFrame, MoveThread, ReadBack} x every read path of
 \* the final representation; paths of length <= 1 on every pool extreme, longer ones on one seeded draw.
+\* + mode from_value (hand-built properties: Value::from of primitives / &String / &Cow / Option / &[T; N], to_value of
+\* dyn Display / dyn Debug / dyn Error / [T; N]); typed read paths as_f64, to_borrowed_str, cast::<&str>, cast::<String>,
+\* cast::<&dyn Error> where the call site promises the typed component.
+\* + every Display / Debug observation under the plain formatter and 8 formatter flag families (alternate, width, fill,
+\* precision, width+precision, sign, zero-pad, hex-debug), incl. flagged template holes.
 SPECIFICATION Spec
 CONSTANTS
     MaxSteps = 3
